@@ -74,6 +74,7 @@ type q06Fix struct {
 	cdc       codec.Codec
 	token     skytypes.EthAddress
 	blocks    int
+	aliveAt   int // fx.blocks at the last KeepAliveAll
 }
 
 func q06NewFix(t *testing.T, n int) *q06Fix {
@@ -1644,7 +1645,10 @@ func (c *q06Case) runOps(focus string, nOps int) {
 // hookCase runs fn inside one PreBlock hook whose writes are dropped afterwards.
 func (fx *q06Fix) hookCase(fn func(ctx sdk.Context)) {
 	fx.blocks++
-	if fx.blocks%1500 == 0 {
+	// block cases advance the height by several blocks each: refresh well inside the 2000-block
+	// keep-alive window whatever the mix of hook and block cases was
+	if fx.blocks-fx.aliveAt >= 800 {
+		fx.aliveAt = fx.blocks
 		if b := fx.fa.KeepAliveAll(); !b.OK() {
 			fx.t.Fatalf("keepalive: %v %s", b.Err, b.Panic)
 		}
